@@ -13,7 +13,7 @@ from symx.core import SBool, SInt, Inconclusive, cur
 MARK = "\x00<symx-proxy-leak>\x00"
 
 # ---------------------------------------------------------------- universe and tables
-_SPECIAL = [0x660, 0x661, 0x669, 0x2028, 0x2029, 0x200B, 0x3000, 0xFF10, 0x1D7CE, 0x0391, 0x03B1, 0x0410, 0x0430, 0x4E2D]
+_SPECIAL = [0x660, 0x661, 0x669, 0x2028, 0x2029, 0x200B, 0x3000, 0xFF10, 0x1D7CE, 0x0391, 0x03B1, 0x0410, 0x0430, 0x4E2D, 0xFEFF]
 
 
 def _single_case(cp):
